@@ -197,6 +197,7 @@ func workMain(args []string) int {
 	traceFile := fs.String("trace", "", "write one line per run: idx run_seed fingerprint outcome (determinism self-test)")
 	order := fs.String("order", "fwd", "fwd | rev | evenodd: order in which this worker's runs are executed")
 	nokf := fs.Bool("no-known", false, "ignore known_findings.jsonl")
+	cold := fs.Bool("cold", false, "cold start: no warm-up; the run is the first use of the library in this process")
 	fs.Parse(args)
 	prop := props[*propID]
 	if prop == nil {
@@ -204,13 +205,15 @@ func workMain(args []string) int {
 		return 2
 	}
 	start := time.Now()
-	if vsim.RaceEnabled && *out != "" {
+	if vsim.RaceEnabled && *out != "" && !*cold {
 		// a race report during the warm-up kills the process too: leave a marker
 		rf := ReplayFile{Property: *propID, Signature: "race", Seed: *seed, Tier: *tier, Race: true, Params: json.RawMessage(`{"warmup":true}`), WarmupOnly: true}
 		b, _ := json.MarshalIndent(rf, "", " ")
 		os.WriteFile(*out+".current.json", b, 0o644)
 	}
-	warmUp()
+	if !*cold {
+		warmUp()
+	}
 	known := loadKnown(*propID)
 	st := NewStats()
 	wo := &workerOut{Stats: st, Known: map[string]int{}, KnownSample: map[string]string{}}
@@ -261,11 +264,14 @@ func workMain(args []string) int {
 		if race {
 			genTier += "+race" // the -race batch uses smaller workloads (see DESIGN.md 2.4)
 		}
+		if *cold {
+			genTier += "+cold"
+		}
 		params := prop.Gen(runSeed, genTier, idx)
 		if race {
 			// a ThreadSanitizer report kills the process: leave the case behind first
 			pj, _ := json.Marshal(params)
-			rf := ReplayFile{Property: *propID, Signature: "race", Seed: *seed, RunSeed: runSeed, Tier: *tier, Race: true, Params: pj}
+			rf := ReplayFile{Property: *propID, Signature: "race", Seed: *seed, RunSeed: runSeed, Tier: *tier, Race: true, Params: pj, Cold: *cold}
 			b, _ := json.MarshalIndent(rf, "", " ")
 			os.WriteFile(*out+".current.json", b, 0o644)
 		}
@@ -314,6 +320,17 @@ func workMain(args []string) int {
 			dec = x.Explored.Decisions()
 		}
 		before := len(dec)
+		if *cold {
+			// a cold run cannot be repeated in this (now warm) process: report it as it is
+			pj, _ := json.Marshal(params)
+			rf := ReplayFile{Property: *propID, Signature: v.Sig, Detail: v.Detail, Seed: *seed, RunSeed: runSeed, Tier: *tier, Race: race, Params: pj, Decisions: packDecisions(dec), Strict: true, Cold: true}
+			b, _ := json.MarshalIndent(rf, "", " ")
+			cand := *out + ".cand.json"
+			os.WriteFile(cand, b, 0o644)
+			wo.Candidate = cand
+			flush()
+			return 3
+		}
 		mp, md, mv, tries := Minimise(prop, params, dec, v, *tier, race, 400, x.IsKnown)
 		if mv == nil {
 			// does not even reproduce in-process: infrastructure trouble
@@ -322,7 +339,7 @@ func workMain(args []string) int {
 			return 2
 		}
 		pj, _ := json.Marshal(mp)
-		rf := ReplayFile{Property: *propID, Signature: mv.Sig, Detail: mv.Detail, Seed: *seed, RunSeed: runSeed, Tier: *tier, Race: race, Params: pj, Decisions: packDecisions(md), Strict: true}
+		rf := ReplayFile{Property: *propID, Signature: mv.Sig, Detail: mv.Detail, Seed: *seed, RunSeed: runSeed, Tier: *tier, Race: race, Params: pj, Decisions: packDecisions(md), Strict: true, Cold: *cold}
 		rf.Minimised.From = before
 		rf.Minimised.To = countSwitches(md)
 		_ = tries
@@ -403,7 +420,9 @@ func replayMain(args []string) int {
 		fmt.Fprintln(os.Stderr, "this replay file needs the -race build (vcheck-race)")
 		return 2
 	}
-	warmUp()
+	if !rf.Cold {
+		warmUp()
+	}
 	if rf.WarmupOnly {
 		fmt.Println("NOT-REPRODUCED (warm-up operations completed without a race report)")
 		return 0
@@ -465,7 +484,7 @@ type batchResult struct {
 	wall       float64
 }
 
-func runBatch(bin, propID, tier string, seed uint64, count, workers int, tmp, tag string, deadline float64) *batchResult {
+func runBatch(bin, propID, tier string, seed uint64, count, workers int, tmp, tag string, deadline float64, extra ...string) *batchResult {
 	br := &batchResult{}
 	if count <= 0 {
 		return br
@@ -485,7 +504,9 @@ func runBatch(bin, propID, tier string, seed uint64, count, workers int, tmp, ta
 		prefix := filepath.Join(tmp, fmt.Sprintf("%s-%d", tag, i))
 		br.prefixes = append(br.prefixes, prefix)
 		go func(i int, prefix string) {
-			cmd := exec.Command(bin, "work", "-prop", propID, "-tier", tier, "-seed", fmt.Sprint(seed), "-w", fmt.Sprint(i), "-n", fmt.Sprint(workers), "-count", fmt.Sprint(count), "-out", prefix, "-deadline", fmt.Sprint(deadline))
+			args := []string{"work", "-prop", propID, "-tier", tier, "-seed", fmt.Sprint(seed), "-w", fmt.Sprint(i), "-n", fmt.Sprint(workers), "-count", fmt.Sprint(count), "-out", prefix, "-deadline", fmt.Sprint(deadline)}
+			args = append(args, extra...)
+			cmd := exec.Command(bin, args...)
 			cmd.Env = append(os.Environ(), "GORACE=halt_on_error=1 exitcode=66", "GOMAXPROCS=1")
 			var eb bytes.Buffer
 			cmd.Stderr = &eb
@@ -611,8 +632,10 @@ func driveMain(args []string) int {
 	}
 	known := loadKnown(*propID)
 	var batches []*batchResult
+	var batchBins []string
 	b1 := runBatch(self, *propID, *tier, seed, plain, *workers, tmp, "plain", deadline)
 	batches = append(batches, b1)
+	batchBins = append(batchBins, self)
 	var b2 *batchResult
 	if race > 0 && *raceBin != "" && len(b1.candidates) == 0 {
 		// ThreadSanitizer's shadow-memory page faults do not scale across processes in
@@ -623,6 +646,34 @@ func driveMain(args []string) int {
 		}
 		b2 = runBatch(*raceBin, *propID, *tier, Derive(seed, "race"), race, rw, tmp, "race", deadline)
 		batches = append(batches, b2)
+		batchBins = append(batchBins, *raceBin)
+	}
+
+	// cold-start runs: one fresh process per run, no warm-up, so that first-use
+	// initialisation (lazily built tables, sync.Once) happens under the explored
+	// schedule with several clients. Each "worker" executes exactly one run.
+	if cp, ok := prop.(interface{ ColdPlan(tier string) (int, int) }); ok && len(b1.candidates) == 0 {
+		cplain, crace := cp.ColdPlan(*tier)
+		for off := 0; off < cplain; off += *workers {
+			n := *workers
+			if off+n > cplain {
+				n = cplain - off
+			}
+			bc := runBatch(self, *propID, *tier, Derive(seed, fmt.Sprint("cold", off)), n, n, tmp, fmt.Sprint("cold", off), deadline, "-cold")
+			batches = append(batches, bc)
+			batchBins = append(batchBins, self)
+		}
+		if *raceBin != "" {
+			for off := 0; off < crace; off += 4 {
+				n := 4
+				if off+n > crace {
+					n = crace - off
+				}
+				bc := runBatch(*raceBin, *propID, *tier, Derive(seed, fmt.Sprint("coldrace", off)), n, n, tmp, fmt.Sprint("coldrace", off), deadline, "-cold")
+				batches = append(batches, bc)
+				batchBins = append(batchBins, *raceBin)
+			}
+		}
 	}
 
 	exit := 0
@@ -653,10 +704,7 @@ func driveMain(args []string) int {
 		return dst
 	}
 	for bi, b := range batches {
-		bin := self
-		if bi == 1 {
-			bin = *raceBin
-		}
+		bin := batchBins[bi]
 		for _, c := range b.candidates {
 			var rf ReplayFile
 			cb, _ := os.ReadFile(c)
@@ -737,7 +785,7 @@ func driveMain(args []string) int {
 	for bi, b := range batches {
 		for _, wo := range b.outs {
 			mergeStats(merged, wo.Stats)
-			if bi == 0 {
+			if batchBins[bi] == self {
 				runsPlain += wo.Stats.Runs
 			} else {
 				runsRace += wo.Stats.Runs
